@@ -27,6 +27,8 @@ Vocabulary (model):
 import Goat.Proofs.DataScopeCounter
 import Goat.Proofs.DataScopeCreate
 import Goat.Proofs.DataScopeProgress
+import Goat.Tie.C13.Idiom
+import Goat.Tie.C13.Expected
 
 namespace Goat.C13
 
@@ -271,6 +273,68 @@ example :
     let init := initSt [⟨none, [(5, some 42)], false⟩, ⟨some 0, [], false⟩] 2 (getOrCreate 1 5) [] 100
     let fin := (sys init).run [0, 0, 0, 1, 0, 0, 1, 1, 1, 1, 1]
     allDone fin = true ∧ fin.threads.map (·.reg) = [some 42, some 42] ∧ fin.fresh = 100 := by
+  decide
+
+/-! ### 5. Get-or-create, for the code shape of the services
+
+Vocabulary (`Goat/Tie/C13/{Tok,Idiom,Expected}.lean`):
+  `ITok`                    the events of a function that takes a data locker, as `datascope facts` extracts
+                            them from the Go source on every run (lock, value, nil test, create, setValue,
+                            commit / defer commit, every return with its operands, any use of the scope itself)
+  `runSkeleton s c sk`      the model program such a skeleton denotes on scope `s` with service key `c`;
+                            `none` unless the key is read under the lock, that read is what is tested, the
+                            created instance is what is stored under the same key and returned, the lock is
+                            released exactly once on every path and the scope itself is not used
+  `skeletonProgs s c sks`   the programs of a list of skeletons, one goroutine each
+  `initStOf ss ps others f` goroutines running the programs `ps` next to goroutines running `others`
+  `Expected.idiomShapes`    the three spellings found in /repo; `Goat.Tie.C13.tie_*_get_or_create` say that
+                            the skeletons extracted from `tasks.Unit.FromScope`, `envs.Unit.Envs`,
+                            `waits.WaitManager.ForScope` are these, `tie_idiom_users` that no other function
+                            takes a data locker, `tie_services_run` that the extracted skeletons are read by
+                            `runSkeleton` (the hypothesis `hsk` below for the repository's code) -/
+
+open Goat.Tie.C13 in
+/-- Any number of goroutines, each running ANY skeleton the interpreter reads (in particular any mix of
+the three services' code shapes), on the same scope `s` (root or child at any depth of any well-formed
+heap) with the same key, interleaved in any way with plain traffic that does not write that key: every
+caller that has returned holds the same, non-nil instance — the one the scope answers with —, and
+`create` ran at most once. -/
+theorem get_or_create_once_services (ss : Scopes) (hwf : WF ss) (s : Nat) (hs : s < ss.length) (c : Key) (fresh : Nat)
+    (sks : List (List ITok)) (hsk : ∀ sk ∈ sks, runSkeleton s c sk ≠ none)
+    (others : List (List Instr)) (hn : ∀ p ∈ others, isKeyNoise c p = true) (sched : List Nat) :
+    let fin := (sys (initStOf ss (skeletonProgs s c sks) others fresh)).run sched
+    (∀ (i j : Nat) (a b : Thread), i < sks.length → j < sks.length → fin.threads[i]? = some a → fin.threads[j]? = some b →
+        a.prog = [] → b.prog = [] → a.reg = b.reg ∧ a.reg ≠ none ∧ a.reg = value fin.scopes s c) ∧
+    fin.fresh ≤ fresh + 1 := by
+  intro fin
+  have h := get_or_create_once ss hwf s hs c sks.length fresh others hn sched
+  have e : initStOf ss (skeletonProgs s c sks) others fresh = initSt ss sks.length (getOrCreate s c) others fresh := by
+    rw [skeletonProgs_eq s c sks hsk, initStOf_replicate]
+  simp only [fin, e]
+  exact h
+
+-- the hypothesis holds for the spellings of the three services (any scope, any key: `tie_idiom_shapes_run`)
+example : ∀ sk ∈ Goat.Tie.C13.Expected.idiomShapes, Goat.Tie.C13.runSkeleton 2 5 sk ≠ none := by decide
+
+-- four callers on a grandchild scope, one per spelling and a second `FromScope`-shaped one, one thread of
+-- plain traffic: one complete schedule, one instance
+example :
+    let sks := Goat.Tie.C13.Expected.idiomShapes ++ [Goat.Tie.C13.Expected.getOrCreateDeferred]
+    let init := Goat.Tie.C13.initStOf [⟨none, [], false⟩, ⟨some 0, [], false⟩, ⟨some 1, [], false⟩]
+      (Goat.Tie.C13.skeletonProgs 2 5 sks) [[.set 1 6 (some 1), .get 2 5]] 100
+    let fin := (sys init).run [1, 0, 1, 1, 2, 1, 4, 1, 1, 0, 4, 0, 0, 0, 0, 4, 2, 2, 2, 2, 2, 2, 3, 3, 3, 3, 3, 3]
+    allDone fin = true ∧ fin.threads.map (·.reg) = [some 100, some 100, some 100, some 100, some 100] ∧
+      fin.fresh = 101 := by
+  decide
+
+-- why the skeleton matters: a caller that reads the key on the scope itself, BEFORE taking the lock, and
+-- creates under the lock without reading again (`scp.Value(k)` as a fast path in front of `LockData`) is
+-- refused by `runSkeleton` (`tie_idiom_refused`), and rightly: two such callers that both saw nil create
+-- two instances
+example :
+    let init := initSt [⟨none, [], false⟩] 2 [.get 0 5, .lock 0, .lcreate 5, .commit] [] 100
+    let fin := (sys init).run [0, 1, 0, 0, 0, 1, 1, 1]
+    allDone fin = true ∧ fin.threads.map (·.reg) = [some 100, some 101] ∧ fin.fresh = 102 := by
   decide
 
 end Goat.C13
